@@ -760,6 +760,23 @@ class Interp:
         if g.ifs:
             return None
         src = self.eval(g.iter, env)
+        from .heap import SortedPerm
+        if isinstance(src, SortedPerm):
+            # [f(i, rec) for i, rec in sorted(enumerate(L), key=...)]  ->  pointwise over the permutation
+            if not (isinstance(g.target, ast.Tuple) and len(g.target.elts) == 2 and all(isinstance(t, ast.Name) for t in g.target.elts)):
+                raise Unsupported("comprehension over a sorted record list needs an (index, record) target")
+            n0, n1 = g.target.elts[0].id, g.target.elts[1].id
+
+            def elem2(j):
+                a_, b_ = src.at(j)
+                env2 = Env({n0: a_, n1: b_}, env, env.module)
+                env2.comp_scope = True
+                return self.eval(e.elt, env2)
+
+            r = SymArr(src.length, elem2, "int")
+            r.is_list = True
+            r.sorted_perm = src
+            return r, src
         if not (isinstance(src, SymArr) and src.items is None):
             return None, src
         if not isinstance(g.target, ast.Name):
